@@ -211,6 +211,8 @@ def history_violation(pid, rec, exe, engine, tier, log, obs):
 
 def handle_violation(pid, rec, exe, engine, tier, log, shrink=True):
     """Gate, minimise, write replay, confirm. Returns dict(vclass, replay, detail) or raises SystemExit(2)."""
+    if rec.vclass in ("hang:no-progress", "hang:wall-clock"):
+        shrink = False   # every execution of such a plan costs minutes of wall clock
     plan = runner.gen_plan(exe, engine, rec.seed, tier)
     if not plan.startswith("engine "):
         print("INFRA-ERROR cannot regenerate plan for seed %d: %s" % (rec.seed, plan[:200]), flush=True)
